@@ -108,6 +108,8 @@ def in_class(meta):
         return n_sites == 1 or meta["x"] == "Kc"
     if meta["chain"] == "V2V" and (meta["mw"] or meta["view_lc"] == "transient"):
         return False  # V1 would be borrowed by the middleware and moved into V2
+    if meta["chain"] == "V1" and meta["mw"] and meta["hmode"] == "V" and meta["view_lc"] != "transient":
+        return False  # V1 (not Clone) would be borrowed by the middleware and moved into the handler: both borrowed and moved
     if meta["extra"] in ("V", "A"):
         if meta["t0_lc"] == "transient":
             return True  # each injection site gets its own instance
